@@ -10,7 +10,8 @@ import copy
 import numpy as np
 
 from ..core import violation, Discard
-from ..gen_scenes import gen_chain_scene, gen_contact_scene, add_knife_edge
+from ..gen_scenes import gen_chain_scene, gen_contact_scene, add_knife_edge, rotate_contact_scene
+from .. import rot
 from ..scenes import build
 from ..seams import Sim
 from ..session import gen_solver, project_velocities, run_solver, require_regular, body_states
@@ -78,6 +79,9 @@ def gen(rng, tier, index):
         # fault F2 at the initial-condition fixed point: forced (hook) or organic (tiny iteration budget), with the
         # legal option continue_with_unconverged on or off
         plan["ic_fault"] = {"how": str(rng.choice(["forced", "budget"])), "continue": bool(rng.random() < 0.6), "max_iter": int(rng.integers(1, 4))}
+    if fam == "contact" and rng.random() < 0.5:
+        # the whole scene rigidly moved: floors become walls and ceilings, gravity points anywhere
+        rotate_contact_scene(scene, rot.rand_quat(rng), rng.uniform(-1, 1, 3))
     if fam != "contact":
         add_knife_edge(rng, scene, prob=0.3)  # velocity-level constraint: gamma_dot(u_dot0) = 0 and W_gamma la_gamma0 in the monitor
     return plan
